@@ -44,3 +44,32 @@ def _scan(fname, prefix, out, arrays):
 
 _scan("corpus.py", "pysem.corpus.", FUNCTIONS, False)
 _scan("npcorpus.py", "pysem.npcorpus.", NP_FUNCTIONS, True)
+
+
+# ---- refusal corpus: the engine must answer "out of subset" (selftest/pysem/refuse.py) -------------------------------
+REFUSE = ["pysem.refuse.cached_square", "pysem.refuse.remember_last", "pysem.refuse.decorated_increment", "pysem.refuse.Box.recall"]
+
+
+@contract("pysem.refuse.cached_square")
+def _(c):
+    c.args(a="int")
+    c.ensures("result == a * a", name="square")
+
+
+@contract("pysem.refuse.remember_last")
+def _(c):
+    c.args(a="int")
+    c.ensures("result == a", name="first_call_behaviour")
+
+
+@contract("pysem.refuse.decorated_increment")
+def _(c):
+    c.args(a="int")
+    c.ensures("result == a + 1", name="increment")
+
+
+@contract("pysem.refuse.Box.recall")
+def _(c):
+    c.self_type("Box")
+    c.args(a="int")
+    c.ensures("result == a", name="fresh_object_behaviour")
